@@ -6,7 +6,7 @@ import torch
 from harness.common import coq_float, coq_nat, coq_bool, coq_list
 
 FIT_HEADER = '''From Coq Require Import List Bool Arith PrimFloat.
-Require Import XV.Model.Select.
+Require Import XV.Model.Select XV.Model.SelectT.
 Import ListNotations.
 Definition wtag_eqb (a b : wtag) : bool :=
   Nat.eqb (w_iter a) (w_iter b) && Nat.eqb (w_m a) (w_m b) && Nat.eqb (w_bw a) (w_bw b).
@@ -24,16 +24,28 @@ Definition outcome_eqb (a b : outcome) : bool :=
   end.
 Definition frun (minimize : bool) (mult : float) (iters : nat) (lbl : option nat) (rb es : bool) (sc : list float) : outcome :=
   run float (f_init minimize) (f_better minimize) (f_stop minimize mult) iters lbl rb es sc.
+(* the wall-clock test fires at the top of every round i >= r (scripted clock) *)
+Definition frun_t (minimize : bool) (mult : float) (r : nat) (iters : nat) (lbl : option nat) (rb es : bool) (sc : list float) : outcome :=
+  run_t float (f_init minimize) (f_better minimize) (f_stop minimize mult) (fun i => Nat.leb r i) iters lbl rb es sc.
 '''
 
 
-def run_real_fit(xr, iters_loop, iters_arg, scores, metric, early_stop, mult, return_best, ctor_iters=None, ctor_metric=None):
+def run_real_fit(xr, iters_loop, iters_arg, scores, metric, early_stop, mult, return_best, ctor_iters=None, ctor_metric=None, timeout_round=None):
     """returns dict(w=(i,m,bw), m=, sqrtm=, bw=, best_iter=, evals=, solves=, crashed=).
     `metric` is the metric in force during the fit; when ctor_metric is given the object is CONSTRUCTED with ctor_metric and
     `metric` is passed to fit(tuning_metric=...) (the documented override), otherwise it is given to the constructor only."""
     torch.manual_seed(0)
     ctor = iters_loop if ctor_iters is None else ctor_iters
-    m = xr.RealRFM(kernel='l2', bandwidth=1.0, exponent=1.0, device='cpu', iters=ctor, tuning_metric=(metric if ctor_metric is None else ctor_metric), verbose=False)
+    m = xr.RealRFM(kernel='l2', bandwidth=1.0, exponent=1.0, device='cpu', iters=ctor, tuning_metric=(metric if ctor_metric is None else ctor_metric), verbose=False,
+                   **({} if timeout_round is None else dict(time_limit_s=1.0)))
+    # scripted clock: the module-level `time` the loop reads is replaced for the duration of the fit; it shows 0 until `timeout_round` rounds have STARTED
+    # (the loop calls callback(iteration=i) right after its wall-clock test), then a huge value: the test fires at the top of round `timeout_round`
+    started = dict(n=0)
+    import types
+    import xrfm.rfm_src.recursive_feature_machine as _rfm_mod
+    fake_time = types.SimpleNamespace(time=lambda: (1e9 if started['n'] >= timeout_round else 0.0))
+    def _cb(iteration):
+        started['n'] = iteration + 1
     st = dict(solves=0, mver=0, evals=0)
     script = list(scores)
 
@@ -66,13 +78,19 @@ def run_real_fit(xr, iters_loop, iters_arg, scores, metric, early_stop, mult, re
     m._compute_validation_metrics = cvm
     X = torch.zeros(3, 2); y = torch.zeros(3, 1)
     out = dict(crashed=None)
+    real_time = _rfm_mod.time
     try:
+        if timeout_round is not None:
+            _rfm_mod.time = fake_time
         m.fit((X, y), (X, y), iters=iters_arg, reg=1e-3, return_best_params=return_best, early_stop_rfm=early_stop,
-              early_stop_multiplier=mult, verbose=False, **({} if ctor_metric is None else dict(tuning_metric=metric)))
+              early_stop_multiplier=mult, verbose=False, **({} if ctor_metric is None else dict(tuning_metric=metric)),
+              **({} if timeout_round is None else dict(callback=_cb)))
     except Exception as e:      # restore with best_alphas None etc.
         out['crashed'] = repr(e)
         out['evals'] = st['evals']
         return out
+    finally:
+        _rfm_mod.time = real_time
     w = [int(v) for v in m.weights.reshape(-1).tolist()]
     out.update(w=tuple(w), m=ver(), sqrtm=(0 if m.sqrtM is None else int(m.sqrtM[0].item()) - 1000),
                bw=int(round(float(m.kernel_obj.bandwidth) - 100.0)) if float(m.kernel_obj.bandwidth) >= 100 else -1,
@@ -90,7 +108,8 @@ def coq_outcome(o, stopped):
             f'{coq_nat(o["m"])} {coq_nat(bw)} {bi} {coq_nat(o["evals"])} {coq_bool(stopped)})')
 
 
-def coq_frun(minimize, mult, iters_loop, iters_arg, return_best, early_stop, scores):
+def coq_frun(minimize, mult, iters_loop, iters_arg, return_best, early_stop, scores, timeout_round=None):
     lbl = 'None' if iters_arg is None else f'(Some {coq_nat(iters_arg)})'
-    return (f'frun {coq_bool(minimize)} {coq_float(mult)} {coq_nat(iters_loop)} {lbl} {coq_bool(return_best)} '
+    head = f'frun {coq_bool(minimize)} {coq_float(mult)}' if timeout_round is None else f'frun_t {coq_bool(minimize)} {coq_float(mult)} {coq_nat(timeout_round)}'
+    return (f'{head} {coq_nat(iters_loop)} {lbl} {coq_bool(return_best)} '
             f'{coq_bool(early_stop)} {coq_list([coq_float(s) for s in scores])}')
